@@ -123,6 +123,18 @@ pub fn run_engine(re: &Regex, e: Engine, t: &str, start: usize, budget: u64) -> 
     }
 }
 
+/// The public entry point Regex::find_from over the whole match sequence (C09 is stated about it).
+pub fn run_api(re: &Regex, t: &str, start: usize, budget: u64) -> (&'static str, u64, MatchList) {
+    verif::reset_steps(budget);
+    let r = panic::catch_unwind(panic::AssertUnwindSafe(|| collect(re.find_from(t, start))));
+    let steps = verif::steps();
+    verif::reset_steps(u64::MAX);
+    match r {
+        Ok(ms) => ("ok", steps, ms),
+        Err(_) => if steps > budget { ("budget", steps, vec![]) } else { ("panic", steps, vec![]) },
+    }
+}
+
 fn boundaries(t: &str) -> Vec<usize> {
     let mut v: Vec<usize> = t.char_indices().map(|(i, _)| i).collect();
     v.push(t.len());
@@ -188,6 +200,15 @@ fn emit_case(out: &mut String, id: &str, p: &[u32], f: &str, no_opt: bool, hays:
                 for (e, nm) in [(Engine::Bt8, "btx"), (Engine::Pk8, "pkx")] {
                     let (st, steps, ms) = run_engine(rx, e, t, s, budget);
                     writeln!(out, "R {} {} {} {}", nm, st, steps, matches_tokens(&ms)).unwrap();
+                }
+            }
+            // the public find_from from the same start, and (from the last start) from beyond the end
+            let (st, _, ms) = run_api(&re, t, s, budget);
+            writeln!(out, "RA {} {} {}", s, st, matches_tokens(&ms)).unwrap();
+            if s == t.len() {
+                for beyond in [t.len() + 1, t.len() + 5] {
+                    let (st, _, ms) = run_api(&re, t, beyond, budget);
+                    writeln!(out, "RA {} {} {}", beyond, st, matches_tokens(&ms)).unwrap();
                 }
             }
         }
@@ -349,6 +370,14 @@ fn emit_case_at(out: &mut String, id: &str, p: &[u32], f: &str, no_opt: bool, t:
     program_block(&cr, out);
     let re_x = arbitrary_twin(&cr);
     let re = Regex::from(cr);
+    if start > t.len() {
+        // a start beyond the end: only the public entry point accepts it
+        writeln!(out, "H {} {}", hex(t.as_bytes()), t.len()).unwrap();
+        let (st, _, ms) = run_api(&re, t, start, budget);
+        writeln!(out, "RA {} {} {}", start, st, matches_tokens(&ms)).unwrap();
+        writeln!(out, "E").unwrap();
+        return true;
+    }
     writeln!(out, "H {} {}", hex(t.as_bytes()), start).unwrap();
     let engines: &[Engine] = if ascii_only { &[Engine::Bt8, Engine::Pk8, Engine::BtA, Engine::PkA] } else { &[Engine::Bt8, Engine::Pk8] };
     for &e in engines {
@@ -361,6 +390,8 @@ fn emit_case_at(out: &mut String, id: &str, p: &[u32], f: &str, no_opt: bool, t:
             writeln!(out, "R {} {} {} {}", nm, st, steps, matches_tokens(&ms)).unwrap();
         }
     }
+    let (st, _, ms) = run_api(&re, t, start, budget);
+    writeln!(out, "RA {} {} {}", start, st, matches_tokens(&ms)).unwrap();
     writeln!(out, "E").unwrap();
     true
 }
